@@ -7,6 +7,7 @@ import (
 	"path/filepath"
 	"runtime"
 	"sync"
+	"sync/atomic"
 	"testing"
 	"time"
 
@@ -84,19 +85,43 @@ func param(c spec.Case, v any) {
 // within runs fn and waits at most d for it. It reports whether fn returned;
 // if not, dump holds the goroutine dump taken at the deadline (fn's goroutine
 // is left behind — the caller records a hang).
+//
+// d is counted in time during which this process was being scheduled normally: the wait proceeds in ticks of
+// 100 ms, and a tick that took more than 300 ms (machine overloaded, process stopped) does not count. A
+// machine on which nothing gets to run for a while must not turn into a "hang" of the code under test; a
+// call that is really stuck stays stuck and is reported once d of healthy time has passed (or, whatever
+// the ticks say, after 6*d).
 func within(d time.Duration, fn func()) (ok bool, elapsed time.Duration, dump string) {
 	done := make(chan struct{})
 	t0 := time.Now()
 	go func() { defer close(done); fn() }()
-	select {
-	case <-done:
-		return true, time.Since(t0), ""
-	case <-time.After(d):
-		buf := make([]byte, 1<<20)
-		n := runtime.Stack(buf, true)
-		return false, time.Since(t0), string(buf[:n])
+	tick := time.NewTicker(100 * time.Millisecond)
+	defer tick.Stop()
+	var healthy time.Duration
+	last := t0
+	for {
+		select {
+		case <-done:
+			return true, time.Since(t0), ""
+		case <-tick.C:
+			now := time.Now()
+			if dt := now.Sub(last); dt <= 300*time.Millisecond {
+				healthy += dt
+			} else {
+				starvedTicks.Add(1)
+			}
+			last = now
+			if healthy >= d || now.Sub(t0) >= 6*d {
+				buf := make([]byte, 1<<20)
+				n := runtime.Stack(buf, true)
+				return false, time.Since(t0), string(buf[:n])
+			}
+		}
 	}
 }
+
+// starvedTicks counts 100 ms ticks of within() that took more than 300 ms.
+var starvedTicks atomic.Int64
 
 // caseDir returns a short private directory for one case (socket paths must
 // stay under 108 bytes).
